@@ -82,6 +82,22 @@ def payloads(rng, tier):
         c = rng.choice([x for x in NUC if x != w[p]]) if e != "D" else w[p]
         yield "single", {"k": 8, "big": seed, "rows": None, "v0": v0, "w": w, "edits": [[e, p, c]], "vt": rng.random() < 0.4,
                          "indel": True if e != "S" else rng.random() < 0.7}
+    # one graph of order 9 (beyond every constant an implementation may have tuned for the orders in common use): a sweep of single
+    # substitutions along one walk
+    for _ in range({"quick": 1, "thorough": 3, "search": 1}[tier]):
+        seed = rng.randrange(1 << 30)
+        rows = big_rows(seed, 9)
+        live = [v for v in (rng.randrange(4 ** 9) for _ in range(20)) if any(x >= 0 for x in rows[v])]
+        if not live:
+            continue
+        n = 90
+        w = gen.random_walk(rng, rows, live[0], n)
+        if len(w) != n:
+            continue
+        for pos in range(9, n - 18, {"quick": 2, "thorough": 1, "search": 2}[tier]):
+            c = rng.choice([x for x in NUC if x != w[pos]])
+            yield "single", {"k": 9, "big": seed, "rows": None, "v0": live[0], "w": w, "edits": [["S", pos, c]], "vt": False,
+                             "indel": pos % 3 != 0}
     # repetitive walks on small sparse graphs, with the same edit applied at two places whose surrounding 2k-1 windows
     # coincide while the symbol before the window differs
     twins = {"quick": 250, "thorough": 5000, "search": 100}[tier]
@@ -202,28 +218,28 @@ def payloads(rng, tier):
 _BIG = {}
 
 
-def big_rows(seed):
+def big_rows(seed, k=8):
     """an order-8 graph PRODUCED BY GRAPH GENERATION (the domain of C08): the coding graph the library builds for a random vertex
     mask of density 0.8 / 0.9 and threshold 1 or 2, rebuilt from the seed (the complete graph when that mask leaves nothing)"""
-    if seed not in _BIG:
+    if (seed, k) not in _BIG:
         _BIG.clear()
         import numpy as np
         r = np.random.RandomState(seed % (2 ** 32))
-        mask = r.random_sample(4 ** 8) < (0.9 if seed % 2 else 0.8)
+        mask = r.random_sample(4 ** k) < (0.9 if seed % 2 else 0.8)
         try:
-            _, acc = dsw.connect_coding_graph(observed_length=8, vertices=mask, threshold=1 + (seed // 2) % 2)
+            _, acc = dsw.connect_coding_graph(observed_length=k, vertices=mask, threshold=1 + (seed // 2) % 2)
             rows = np.asarray(acc, dtype=int).tolist()
         except ValueError:
-            rows = [[(4 * v + j) % 4 ** 8 for j in range(4)] for v in range(4 ** 8)]
-        _BIG[seed] = rows
-    return _BIG[seed]
+            rows = [[(4 * v + j) % 4 ** k for j in range(4)] for v in range(4 ** k)]
+        _BIG[(seed, k)] = rows
+    return _BIG[(seed, k)]
 
 
 def build(stream, p):
     k, rows, v0, w, edits = p["k"], p["rows"], p["v0"], p["w"], p["edits"]
     big = p.get("big") is not None
     if big:
-        rows = big_rows(p["big"])
+        rows = big_rows(p["big"], k)
     s = rc.apply_edits(w, [tuple(e) for e in edits])
     vt = formula(w, 6) if p["vt"] else None
     call, impl = rc.repair_case_parts(rows, v0, k, s, vt, p["indel"], 1e9, no_call=big)
